@@ -535,6 +535,8 @@ def finish(ctx, level_explanation, assumptions, not_decided):
         'checker_cmd': './check %s --tier %s' % (ctx.prop, ctx.tier),
         'trusted_base': assumptions,
     }
+    if getattr(ctx, 'selftest', None) is not None:
+        cov['selftest'] = ctx.selftest
     ev = {'property_id': ctx.prop, 'tier': ctx.tier, 'seed': ctx.seed, 'level': 'other',
           'coverage': cov, 'assumptions': assumptions, 'wall_s': round(time.time() - ctx.t0, 3),
           'violations': len(new)}
